@@ -6,7 +6,7 @@ P=$1; PATCH=$2; shift 2
 cd /repo || exit 3
 if ! git diff --quiet; then echo "/repo has uncommitted changes; refusing"; exit 3; fi
 git apply "$PATCH" || { echo "patch does not apply"; exit 3; }
-cd /verif && ./check "$P" "$@"; rc=$?
+cd /verif && VERIF_EVIDENCE_DIR=/verif/cex/evidence_seed ./check "$P" "$@"; rc=$?
 git -C /repo checkout -- .
 echo "try_seed: check exit code $rc"
 exit $rc
